@@ -3,7 +3,7 @@
    2^32; parsing an encoder-produced string and re-encoding returns the same
    string; needs_rehash is false exactly when both cost parameters match.
    (The hash inside the string is Argon2's output: C09.) *)
-From Dryoc Require Import Impl.PwhashStr Refine.PwhashStr.
+From Dryoc Require Import Impl.PwhashStr Impl.Argon2 Impl.PwhashVerify Refine.PwhashStr Refine.PwhashVerify.
 Import PwhashStr.
 Open Scope Z_scope.
 
@@ -37,6 +37,29 @@ Proof. exact needs_rehash_to_string. Qed.
 
 (* non-vacuity, and the input that the unfixed parser rejected: a salt whose
    base64 text is "argon2idAAAAAAAAAAAAAA" *)
+(* the string made by crypto_pwhash_str (for the 16 salt bytes it drew) encodes the hash actually
+   computed: it parses back to exactly the algorithm, costs, salt and the 32-byte Argon2id output,
+   and verifies with the password it was made from -- for every password and in-range costs *)
+Theorem C10_str_is_self_describing : forall pw salt opslimit memlimit,
+  str_params_ok pw salt opslimit memlimit ->
+  exists h, Argon2Impl.argon2_hash opslimit (memlimit / 1024) 1 pw salt None None 32 2 = Ok h /\ length h = 32%nat /\
+    PwhashVerify.str pw salt opslimit memlimit = Ok (to_string 2 opslimit (memlimit / 1024) salt h) /\
+    parse (to_string 2 opslimit (memlimit / 1024) salt h) =
+      Ok (mk_pwhash (Some h) (Some salt) (Some 2) (Some opslimit) (Some (memlimit / 1024)) (Some 1) (Some 19)).
+Proof. exact str_is_self_describing. Qed.
+
+Theorem C10_str_verify_own : forall pw salt opslimit memlimit,
+  str_params_ok pw salt opslimit memlimit ->
+  exists s, PwhashVerify.str pw salt opslimit memlimit = Ok s /\ PwhashVerify.str_verify s pw = Ok tt.
+Proof. exact str_verify_own. Qed.
+
+(* verification = "the 32-byte Argon2 output for the parsed parameters equals the stored hash" *)
+Theorem C10_str_verify_iff : forall s pw w t m p salt ty stored,
+  parse s = Ok w -> pw_t w = Some t -> pw_m w = Some m -> pw_p w = Some p -> pw_salt w = Some salt ->
+  pw_type w = Some ty -> pw_hash w = Some stored ->
+  (PwhashVerify.str_verify s pw = Ok tt <-> Argon2Impl.argon2_hash t m p pw salt None None 32 ty = Ok stored).
+Proof. exact str_verify_iff. Qed.
+
 Example C10_field_like_salt :
   let salt := [0x6a; 0xb8; 0x28; 0x9f; 0x68; 0x9d; 0; 0; 0; 0; 0; 0; 0; 0; 0; 0] in
   firstn 8 (b64_encode salt) = s_argon2id /\
